@@ -38,8 +38,8 @@ theorem CmtPre.mono_term {s : PSys} {t t' k : Nat} {l : List LEntry} (h : CmtPre
 
 /-! ### transport along a step: `cmts`/`acks` only grow, ghost logs change by `Grow` -/
 
-theorem CmtPre.grow {c0 : Cfg} {s s' : PSys} {t k : Nat} {l : List LEntry} (h : CmtPre s t k l)
-    (h3 : InvC3 c0 s) (g : Grow s s') (hcs : ∀ p ∈ s.cmts, p ∈ s'.cmts) : CmtPre s' t k l := by
+theorem CmtPre.grow {s s' : PSys} {t k : Nat} {l : List LEntry} (h : CmtPre s t k l)
+    (h3 : InvC3 s) (g : Grow s s') (hcs : ∀ p ∈ s.cmts, p ∈ s'.cmts) : CmtPre s' t k l := by
   rcases h with h | ⟨p, hp, h1, h2, h4⟩
   · exact Or.inl h
   · have hq := h3.cq p hp
@@ -49,20 +49,27 @@ theorem CmtPre.grow {c0 : Cfg} {s s' : PSys} {t k : Nat} {l : List LEntry} (h : 
 
 /-- a prefix that agrees with the log of an elected leader of `t` up to an index covered by a commit of
 a term not beyond `t` is a committed prefix -/
-theorem CmtPre.of_cmtd {c0 : Cfg} {s : PSys} (hB : InvB c0 s) (hC : InvC c0 s) {t k : Nat} {l : List LEntry}
+theorem CmtPre.of_cmtd {s : PSys} (hB : InvB s) (hC : InvC s) {t k : Nat} {l : List LEntry}
     (hc : Cmtd s t k) (hel : Elected s t) (hl : l.take k = (s.llog t).take k) : CmtPre s t k l := by
   rcases hc with h | ⟨p, hp, h1, h2⟩
   · exact Or.inl h
   · exact Or.inr ⟨p, hp, h1, h2, by rw [hl]; exact cmt_prefix_le hB hC.c3 hC.lc hp h2 hel h1⟩
 
 /-- the general frame lemma: node `i` replaced by `n`, commits / acknowledgements / carriers extended,
-ghost history grown -/
-theorem invC3_gen (c0 : Cfg) (s s' : PSys) (h3 : InvC3 c0 s) (g : Grow s s') (i : Nat) (n : PNode)
+ghost history grown (`hee` is the clause `ee` of `InvB`) -/
+theorem invC3_gen (s s' : PSys) (h3 : InvC3 s) (hee : ∀ ec ∈ s.ecfgs, Elected s ec.1) (g : Grow s s')
+    (i : Nat) (n : PNode)
     (hn : s'.nodes = upd s.nodes i n)
     (hcs : ∀ p ∈ s.cmts, p ∈ s'.cmts) (has : ∀ a ∈ s.acks, a ∈ s'.acks)
+    (ge : ∀ t, Elected s t → s'.elog t = s.elog t)
+    (hccs : ∀ x ∈ s.ccfgs, x ∈ s'.ccfgs)
+    (hcc : s'.ccfgs.map (·.1) = s'.cmts)
+    (hgd : ∀ pc ∈ s'.ccfgs, ∀ ec ∈ s'.ecfgs, pc.1.1 < ec.1 → (pc ∈ s.ccfgs ∧ ec ∈ s.ecfgs) ∨
+        (adjOk pc.2 ec.2 = true ∨ (s'.elog ec.1).take pc.1.2 = (s'.llog pc.1.1).take pc.1.2))
     (hcq : ∀ p ∈ s'.cmts, p ∈ s.cmts ∨ (0 < p.2 ∧ p.2 ≤ (s'.llog p.1).length ∧
         termAt (s'.llog p.1) p.2 = p.1 ∧ Elected s' p.1 ∧
-        ∃ q, c0.isQuorum q = true ∧ ∀ v ∈ q, ∃ a ∈ s'.acks, a.term = p.1 ∧ a.frm = v ∧ p.2 ≤ a.idx))
+        ∃ cfg q, (p, cfg) ∈ s'.ccfgs ∧ cfg.isQuorum q = true ∧
+          ∀ v ∈ q, ∃ a ∈ s'.acks, a.term = p.1 ∧ a.frm = v ∧ p.2 ≤ a.idx))
     (hcm : CmtPre s' n.term n.commit n.log)
     (hcmi : ∀ im ∈ n.pending, CmtPre s' im.term im.commit im.log)
     (hcmd : CmtPre s' n.dterm n.dcommit n.dlog)
@@ -73,7 +80,7 @@ theorem invC3_gen (c0 : Cfg) (s s' : PSys) (h3 : InvC3 c0 s) (g : Grow s s') (i 
         m.idx ≤ (s'.llog m.term).length ∧ m.pre = (s'.llog m.term).take m.idx ∧
         m.sterm = termAt (s'.llog m.term) m.idx))
     (hcl : ∀ m ∈ s'.claims, m ∈ s.claims ∨ (m.idx = 0 ∨ ∃ p ∈ s'.cmts, m.idx ≤ p.2 ∧ p.1 ≤ m.cterm ∧
-        m.term = termAt (s'.llog p.1) m.idx)) : InvC3 c0 s' := by
+        m.term = termAt (s'.llog p.1) m.idx)) : InvC3 s' := by
   have hnode : ∀ j, j ≠ i → s'.nodes j = s.nodes j := by intro j hj; rw [hn]; simp [upd, hj]
   have hnodei : s'.nodes i = n := by rw [hn]; simp [upd]
   have tr : ∀ t k l, CmtPre s t k l → CmtPre s' t k l := fun _ _ _ h => h.grow h3 g hcs
@@ -81,13 +88,24 @@ theorem invC3_gen (c0 : Cfg) (s s' : PSys) (h3 : InvC3 c0 s) (g : Grow s s') (i 
   constructor
   · intro p hp
     rcases hcq p hp with hp' | hp'
-    · obtain ⟨a1, a2, a3, a4, q, hq, hall⟩ := h3.cq p hp'
-      refine ⟨a1, Nat.le_trans a2 (g.len_le a4), ?_, g.el _ a4, q, hq, ?_⟩
+    · obtain ⟨a1, a2, a3, a4, cfg, q, hpc, hq, hall⟩ := h3.cq p hp'
+      refine ⟨a1, Nat.le_trans a2 (g.len_le a4), ?_, g.el _ a4, cfg, q, hccs _ hpc, hq, ?_⟩
       · rw [g.termAt_eq a4 a2]; exact a3
       · intro v hv
         obtain ⟨a, ha, h1⟩ := hall v hv
         exact ⟨a, has a ha, h1⟩
     · exact hp'
+  · exact hcc
+  · intro pc hpc ec hec hlt
+    rcases hgd pc hpc ec hec hlt with ⟨h1, h2⟩ | h
+    · rcases h3.gd pc h1 ec h2 hlt with a | a
+      · exact Or.inl a
+      · have hpm : pc.1 ∈ s.cmts := by
+          rw [← h3.cc]; exact List.mem_map.2 ⟨pc, h1, rfl⟩
+        have hq := h3.cq pc.1 hpm
+        right
+        rw [ge _ (hee ec h2), g.take_eq hq.2.2.2.1 hq.2.1]; exact a
+    · exact h
   · intro j
     by_cases hj : j = i
     · subst hj; rw [hnodei]; exact hcm
@@ -128,43 +146,77 @@ theorem invC3_gen (c0 : Cfg) (s s' : PSys) (h3 : InvC3 c0 s) (g : Grow s s') (i 
         exact Or.inr ⟨p, hcs p hp, e1, e2, by rw [g.termAt_eq hq.2.2.2.1 (by omega)]; exact e3⟩
     · exact h
 
+/-- the frame lemma for a step that changes neither the leader commits nor the configuration ghosts nor
+the election logs -/
+theorem invC3_gen0 (s s' : PSys) (h3 : InvC3 s) (hee : ∀ ec ∈ s.ecfgs, Elected s ec.1) (g : Grow s s')
+    (i : Nat) (n : PNode)
+    (hn : s'.nodes = upd s.nodes i n)
+    (hcs : ∀ p ∈ s.cmts, p ∈ s'.cmts) (has : ∀ a ∈ s.acks, a ∈ s'.acks)
+    (hcq : ∀ p ∈ s'.cmts, p ∈ s.cmts ∨ (0 < p.2 ∧ p.2 ≤ (s'.llog p.1).length ∧
+        termAt (s'.llog p.1) p.2 = p.1 ∧ Elected s' p.1 ∧
+        ∃ cfg q, (p, cfg) ∈ s'.ccfgs ∧ cfg.isQuorum q = true ∧
+          ∀ v ∈ q, ∃ a ∈ s'.acks, a.term = p.1 ∧ a.frm = v ∧ p.2 ≤ a.idx))
+    (hcm : CmtPre s' n.term n.commit n.log)
+    (hcmi : ∀ im ∈ n.pending, CmtPre s' im.term im.commit im.log)
+    (hcmd : CmtPre s' n.dterm n.dcommit n.dlog)
+    (happ : ∀ m ∈ s'.apps, m ∈ s.apps ∨ Cmtd s' m.term m.commit)
+    (hhb : ∀ m ∈ s'.hbs, m ∈ s.hbs ∨ (Elected s' m.term ∧ Cmtd s' m.term m.commit ∧
+        (m.commit = 0 ∨ ∃ a ∈ s'.acks, a.term = m.term ∧ a.frm = m.to ∧ m.commit ≤ a.idx)))
+    (hsn : ∀ m ∈ s'.snaps, m ∈ s.snaps ∨ (Elected s' m.term ∧ Cmtd s' m.term m.idx ∧
+        m.idx ≤ (s'.llog m.term).length ∧ m.pre = (s'.llog m.term).take m.idx ∧
+        m.sterm = termAt (s'.llog m.term) m.idx))
+    (hcl : ∀ m ∈ s'.claims, m ∈ s.claims ∨ (m.idx = 0 ∨ ∃ p ∈ s'.cmts, m.idx ≤ p.2 ∧ p.1 ≤ m.cterm ∧
+        m.term = termAt (s'.llog p.1) m.idx))
+    (hcmts : s'.cmts = s.cmts := by rfl) (hccfgs : s'.ccfgs = s.ccfgs := by rfl)
+    (hecfgs : s'.ecfgs = s.ecfgs := by rfl) (helog : s'.elog = s.elog := by rfl) : InvC3 s' :=
+  invC3_gen s s' h3 hee g i n hn hcs has (fun t _ => by rw [helog])
+    (by rw [hccfgs]; exact fun x hx => hx) (by rw [hccfgs, hcmts]; exact h3.cc)
+    (by rw [hccfgs, hecfgs]; exact fun pc hpc ec hec _ => Or.inl ⟨hpc, hec⟩)
+    hcq hcm hcmi hcmd happ hhb hsn hcl
+
 /-- the frame lemma for a step that changes node `i` only -/
-theorem invC3_node (c0 : Cfg) (s s' : PSys) (h3 : InvC3 c0 s) (i : Nat) (n : PNode)
+theorem invC3_node (s s' : PSys) (h3 : InvC3 s) (hee : ∀ ec ∈ s.ecfgs, Elected s ec.1) (i : Nat) (n : PNode)
     (hn : s'.nodes = upd s.nodes i n) (hll : s'.llog = s.llog) (hel : s'.elected = s.elected)
     (hcmts : s'.cmts = s.cmts) (hacks : s'.acks = s.acks) (happs : s'.apps = s.apps)
     (hhbs : s'.hbs = s.hbs) (hsn : s'.snaps = s.snaps) (hcl : s'.claims = s.claims)
     (hcm : CmtPre s n.term n.commit n.log)
     (hcmi : ∀ im ∈ n.pending, CmtPre s im.term im.commit im.log)
-    (hcmd : CmtPre s n.dterm n.dcommit n.dlog) : InvC3 c0 s' := by
+    (hcmd : CmtPre s n.dterm n.dcommit n.dlog)
+    (hccfgs : s'.ccfgs = s.ccfgs := by rfl) (hecfgs : s'.ecfgs = s.ecfgs := by rfl)
+    (helog : s'.elog = s.elog := by rfl) : InvC3 s' := by
   have g : Grow s s' := Grow.refl' hll hel
   have hcs : ∀ p ∈ s.cmts, p ∈ s'.cmts := by rw [hcmts]; exact fun p hp => hp
-  refine invC3_gen c0 s s' h3 g i n hn hcs (by rw [hacks]; exact fun a ha => ha)
+  refine invC3_gen0 s s' h3 hee g i n hn hcs (by rw [hacks]; exact fun a ha => ha)
     (by rw [hcmts]; exact fun p hp => Or.inl hp) (hcm.grow h3 g hcs)
     (fun im him => (hcmi im him).grow h3 g hcs) (hcmd.grow h3 g hcs)
     (by rw [happs]; exact fun m hm => Or.inl hm) (by rw [hhbs]; exact fun m hm => Or.inl hm)
     (by rw [hsn]; exact fun m hm => Or.inl hm) (by rw [hcl]; exact fun m hm => Or.inl hm)
+    hcmts hccfgs hecfgs helog
 
 /-- releasing a message does not touch the clauses -/
-theorem invC3_addReleased (c0 : Cfg) (s : PSys) (m : OMsg) (h3 : InvC3 c0 s) : InvC3 c0 (addReleased s m) := by
+theorem invC3_addReleased (s : PSys) (m : OMsg) (h3 : InvC3 s) (hee : ∀ ec ∈ s.ecfgs, Elected s ec.1) :
+    InvC3 (addReleased s m) := by
   cases m with
   | voteReq t c lt li =>
-    exact invC3_gen c0 s _ h3 (Grow.refl' rfl rfl) 0 (s.nodes 0) (upd_self _ _).symm (fun p hp => hp)
+    exact invC3_gen0 s _ h3 hee (Grow.refl' rfl rfl) 0 (s.nodes 0) (upd_self _ _).symm (fun p hp => hp)
       (fun a ha => ha) (fun p hp => Or.inl hp) (h3.cm 0) (h3.cmi 0) (h3.cmd 0) (fun m hm => Or.inl hm)
       (fun m hm => Or.inl hm) (fun m hm => Or.inl hm) (fun m hm => Or.inl hm)
   | grant t v c gh =>
-    exact invC3_gen c0 s _ h3 (Grow.refl' rfl rfl) 0 (s.nodes 0) (upd_self _ _).symm (fun p hp => hp)
+    exact invC3_gen0 s _ h3 hee (Grow.refl' rfl rfl) 0 (s.nodes 0) (upd_self _ _).symm (fun p hp => hp)
       (fun a ha => ha) (fun p hp => Or.inl hp) (h3.cm 0) (h3.cmi 0) (h3.cmd 0) (fun m hm => Or.inl hm)
       (fun m hm => Or.inl hm) (fun m hm => Or.inl hm) (fun m hm => Or.inl hm)
   | ack t f idx pre =>
-    exact invC3_gen c0 s _ h3 (Grow.refl' rfl rfl) 0 (s.nodes 0) (upd_self _ _).symm (fun p hp => hp)
+    exact invC3_gen0 s _ h3 hee (Grow.refl' rfl rfl) 0 (s.nodes 0) (upd_self _ _).symm (fun p hp => hp)
       (fun a ha => List.mem_cons_of_mem _ ha) (fun p hp => Or.inl hp) (h3.cm 0) (h3.cmi 0) (h3.cmd 0)
       (fun m hm => Or.inl hm) (fun m hm => Or.inl hm) (fun m hm => Or.inl hm) (fun m hm => Or.inl hm)
 
 /-! ### initial state -/
 
-theorem invC3_init (c0 : Cfg) : InvC3 c0 init := by
+theorem invC3_init (c0 : Cfg) : InvC3 init := by
   constructor
   · intro p hp; simp [init] at hp
+  · rfl
+  · intro pc hpc; simp [init] at hpc
   · intro i; exact Or.inl rfl
   · intro i im him; simp [init] at him
   · intro i; exact Or.inl rfl
@@ -176,39 +228,39 @@ theorem invC3_init (c0 : Cfg) : InvC3 c0 init := by
 /-! ### one lemma per event -/
 
 section events
-variable (c0 : Cfg) (s s' : PSys)
+variable (s s' : PSys)
 
-theorem invC3_bump (i t : Nat) (h : applyEvent s (.bump i t) = .ok s') (hC : InvC c0 s) : InvC3 c0 s' := by
+theorem invC3_bump (i t : Nat) (h : applyEvent s (.bump i t) = .ok s') (hB : InvB s) (hC : InvC s) : InvC3 s' := by
   simp only [applyEvent, ok] at h
   split at h
   · rename_i hg; cases h
-    exact invC3_node c0 s _ hC.c3 i _ rfl rfl rfl rfl rfl rfl rfl rfl rfl
+    exact invC3_node s _ hC.c3 hB.ee i _ rfl rfl rfl rfl rfl rfl rfl rfl rfl
       ((hC.c3.cm i).mono_term (Nat.le_of_lt hg.2)) (hC.c3.cmi i) (hC.c3.cmd i)
   · cases h
 
-theorem invC3_campaign (i : Nat) (h : applyEvent s (.campaign i) = .ok s') (hC : InvC c0 s) : InvC3 c0 s' := by
+theorem invC3_campaign (i : Nat) (h : applyEvent s (.campaign i) = .ok s') (hB : InvB s) (hC : InvC s) : InvC3 s' := by
   simp only [applyEvent, ok] at h
   split at h
   · cases h
-    exact invC3_node c0 s _ hC.c3 i _ rfl rfl rfl rfl rfl rfl rfl rfl rfl
+    exact invC3_node s _ hC.c3 hB.ee i _ rfl rfl rfl rfl rfl rfl rfl rfl rfl
       (hC.c3.cm i) (hC.c3.cmi i) (hC.c3.cmd i)
   · cases h
 
-theorem invC3_grant (i c : Nat) (h : applyEvent s (.grant i c) = .ok s') (hC : InvC c0 s) : InvC3 c0 s' := by
+theorem invC3_grant (i c : Nat) (h : applyEvent s (.grant i c) = .ok s') (hB : InvB s) (hC : InvC s) : InvC3 s' := by
   simp only [applyEvent, ok] at h
   split at h
   · split at h
     · cases h
-      exact invC3_node c0 s _ hC.c3 i _ rfl rfl rfl rfl rfl rfl rfl rfl rfl
+      exact invC3_node s _ hC.c3 hB.ee i _ rfl rfl rfl rfl rfl rfl rfl rfl rfl
         (hC.c3.cm i) (hC.c3.cmi i) (hC.c3.cmd i)
     · cases h
   · cases h
 
-theorem invC3_rdy (i : Nat) (h : applyEvent s (.rdy i) = .ok s') (hC : InvC c0 s) : InvC3 c0 s' := by
+theorem invC3_rdy (i : Nat) (h : applyEvent s (.rdy i) = .ok s') (hB : InvB s) (hC : InvC s) : InvC3 s' := by
   simp only [applyEvent, ok] at h
   split at h
   · cases h
-    refine invC3_node c0 s _ hC.c3 i _ rfl rfl rfl rfl rfl rfl rfl rfl rfl
+    refine invC3_node s _ hC.c3 hB.ee i _ rfl rfl rfl rfl rfl rfl rfl rfl rfl
       (hC.c3.cm i) ?_ (hC.c3.cmd i)
     intro im him
     simp only [List.mem_append, List.mem_singleton] at him
@@ -217,74 +269,95 @@ theorem invC3_rdy (i : Nat) (h : applyEvent s (.rdy i) = .ok s') (hC : InvC c0 s
     · subst him; exact hC.c3.cm i
   · cases h
 
-theorem invC3_persist (i k : Nat) (h : applyEvent s (.persist i k) = .ok s') (hC : InvC c0 s) : InvC3 c0 s' := by
+theorem invC3_persist (i k : Nat) (h : applyEvent s (.persist i k) = .ok s') (hB : InvB s) (hC : InvC s) : InvC3 s' := by
   simp only [applyEvent, ok] at h
   split at h
   · split at h
     · rename_i im him
       cases h
       have hmem : im ∈ (s.nodes i).pending := List.mem_of_getElem? him
-      exact invC3_node c0 s _ hC.c3 i _ rfl rfl rfl rfl rfl rfl rfl rfl rfl
+      exact invC3_node s _ hC.c3 hB.ee i _ rfl rfl rfl rfl rfl rfl rfl rfl rfl
         (hC.c3.cm i) (fun x hx => hC.c3.cmi i x (List.mem_of_mem_drop hx)) (hC.c3.cmi i im hmem)
     · cases h
   · cases h
 
-theorem invC3_release (i : Nat) (key : OMsg) (h : applyEvent s (.release i key) = .ok s') (hC : InvC c0 s) :
-    InvC3 c0 s' := by
+theorem invC3_release (i : Nat) (key : OMsg) (h : applyEvent s (.release i key) = .ok s') (hB : InvB s) (hC : InvC s) :
+    InvC3 s' := by
   simp only [applyEvent, ok] at h
   split at h
   · split at h
     · split at h
-      · cases h; exact invC3_addReleased c0 s _ hC.c3
+      · cases h; exact invC3_addReleased s _ hC.c3 hB.ee
       · cases h
     · cases h
   · split at h
     · split at h
       · split at h
         · cases h
-          refine invC3_addReleased c0 _ _ ?_
-          exact invC3_node c0 s _ hC.c3 i _ rfl rfl rfl rfl rfl rfl rfl rfl rfl
+          refine invC3_addReleased _ _ ?_ hB.ee
+          exact invC3_node s _ hC.c3 hB.ee i _ rfl rfl rfl rfl rfl rfl rfl rfl rfl
             (hC.c3.cm i) (hC.c3.cmi i) (hC.c3.cmd i)
         · cases h
       · cases h
     · cases h
 
-theorem invC3_crash (i : Nat) (h : applyEvent s (.crash i) = .ok s') (hC : InvC c0 s) : InvC3 c0 s' := by
+theorem invC3_crash (i : Nat) (h : applyEvent s (.crash i) = .ok s') (hB : InvB s) (hC : InvC s) : InvC3 s' := by
   simp only [applyEvent, ok] at h
   split at h
   · cases h
-    exact invC3_node c0 s _ hC.c3 i _ rfl rfl rfl rfl rfl rfl rfl rfl rfl
+    exact invC3_node s _ hC.c3 hB.ee i _ rfl rfl rfl rfl rfl rfl rfl rfl rfl
       (hC.c3.cm i) (by intro im him; simp at him) (hC.c3.cmd i)
   · cases h
 
-theorem invC3_restart (i : Nat) (h : applyEvent s (.restart i) = .ok s') (hC : InvC c0 s) : InvC3 c0 s' := by
+theorem invC3_restart (i : Nat) (h : applyEvent s (.restart i) = .ok s') (hB : InvB s) (hC : InvC s) : InvC3 s' := by
   simp only [applyEvent, ok] at h
   split at h
   · cases h
-    exact invC3_node c0 s _ hC.c3 i _ rfl rfl rfl rfl rfl rfl rfl rfl rfl
+    exact invC3_node s _ hC.c3 hB.ee i _ rfl rfl rfl rfl rfl rfl rfl rfl rfl
       (hC.c3.cmd i) (by intro im him; simp at him) (hC.c3.cmd i)
   · cases h
 
 theorem invC3_win (i : Nat) (cfg : Cfg) (q : List Nat) (h : applyEvent s (.win i cfg q) = .ok s')
-    (hC : InvC c0 s) (g : Grow s s') : InvC3 c0 s' := by
-  obtain ⟨_, _, _, _, hs'⟩ := win_guard h
+    (hV : InvV (vsys s)) (hL : InvL s) (hB : InvB s) (hC : InvC s) (g : Grow s s') : InvC3 s' := by
+  obtain ⟨hrole, hq, hall, _, hs', _, hadj, hw⟩ := win_guard h
+  have hf := win_fresh s hV hL i cfg q hrole hq hall hadj
   subst hs'
   have h3 := hC.c3
-  exact invC3_gen c0 s _ h3 g i _ rfl (fun p hp => hp) (fun a ha => ha) (fun p hp => Or.inl hp)
+  refine invC3_gen s _ h3 hB.ee g i _ rfl (fun p hp => hp) (fun a ha => ha) ?_ (fun x hx => hx) h3.cc ?_
+    (fun p hp => Or.inl hp)
     ((h3.cm i).grow h3 g (fun p hp => hp)) (fun im him => (h3.cmi i im him).grow h3 g (fun p hp => hp))
     ((h3.cmd i).grow h3 g (fun p hp => hp)) (fun m hm => Or.inl hm) (fun m hm => Or.inl hm)
     (fun m hm => Or.inl hm) (fun m hm => Or.inl hm)
+  · intro t ht
+    have hne : t ≠ (s.nodes i).term := by intro he; rw [he] at ht; exact hf ht
+    show updT s.elog (s.nodes i).term (s.nodes i).log t = s.elog t
+    simp [updT, hne]
+  · intro pc hpc ec hec hlt
+    rcases List.mem_cons.1 hec with e | e
+    · subst e
+      right
+      have hlt' : pc.1.1 < (s.nodes i).term := hlt
+      have e1 : updT s.elog (s.nodes i).term (s.nodes i).log (s.nodes i).term = (s.nodes i).log := by
+        simp [updT]
+      have e2 : updT s.llog (s.nodes i).term (s.nodes i).log pc.1.1 = s.llog pc.1.1 := by
+        simp [updT, Nat.ne_of_lt hlt']
+      show adjOk pc.2 cfg = true ∨
+        (updT s.elog (s.nodes i).term (s.nodes i).log (s.nodes i).term).take pc.1.2 =
+          (updT s.llog (s.nodes i).term (s.nodes i).log pc.1.1).take pc.1.2
+      rw [e1, e2]
+      exact hw pc hpc hlt'
+    · exact Or.inl ⟨hpc, e⟩
 
-theorem invC3_stepDown (i : Nat) (h : applyEvent s (.stepDown i) = .ok s') (hC : InvC c0 s) : InvC3 c0 s' := by
+theorem invC3_stepDown (i : Nat) (h : applyEvent s (.stepDown i) = .ok s') (hB : InvB s) (hC : InvC s) : InvC3 s' := by
   simp only [applyEvent, ok] at h
   split at h
   · cases h
-    exact invC3_node c0 s _ hC.c3 i _ rfl rfl rfl rfl rfl rfl rfl rfl rfl
+    exact invC3_node s _ hC.c3 hB.ee i _ rfl rfl rfl rfl rfl rfl rfl rfl rfl
       (hC.c3.cm i) (hC.c3.cmi i) (hC.c3.cmd i)
   · cases h
 
 theorem invC3_leaderAppend (i : Nat) (e : LEntry) (h : applyEvent s (.leaderAppend i e) = .ok s')
-    (hC : InvC c0 s) (g : Grow s s') : InvC3 c0 s' := by
+    (hB : InvB s) (hC : InvC s) (g : Grow s s') : InvC3 s' := by
   have h3 := hC.c3
   simp only [applyEvent, ok] at h
   split at h
@@ -295,21 +368,21 @@ theorem invC3_leaderAppend (i : Nat) (e : LEntry) (h : applyEvent s (.leaderAppe
       · have hq := (h3.cq p hp).2.1
         have hlen := len_of_take_eq p3 (by omega)
         exact Or.inr ⟨p, hp, p1, p2, by rw [List.take_append_of_le_length hlen]; exact p3⟩
-    exact invC3_gen c0 s _ h3 g i _ rfl (fun p hp => hp) (fun a ha => ha) (fun p hp => Or.inl hp)
+    exact invC3_gen0 s _ h3 hB.ee g i _ rfl (fun p hp => hp) (fun a ha => ha) (fun p hp => Or.inl hp)
       (hcm.grow h3 g (fun p hp => hp)) (fun im him => (h3.cmi i im him).grow h3 g (fun p hp => hp))
       ((h3.cmd i).grow h3 g (fun p hp => hp)) (fun m hm => Or.inl hm) (fun m hm => Or.inl hm)
       (fun m hm => Or.inl hm) (fun m hm => Or.inl hm)
   · cases h
 
-theorem invC3_sendApp (i : Nat) (m : App) (h : applyEvent s (.sendApp i m) = .ok s') (hC : InvC c0 s) :
-    InvC3 c0 s' := by
+theorem invC3_sendApp (i : Nat) (m : App) (h : applyEvent s (.sendApp i m) = .ok s') (hB : InvB s) (hC : InvC s) :
+    InvC3 s' := by
   have h3 := hC.c3
   simp only [applyEvent, ok] at h
   split at h
   · rename_i hg; cases h
     have hcd : Cmtd s m.term m.commit := by
       rw [hg.2.2.1]; exact (h3.cm i).cmtd.mono_idx hg.2.2.2.2.2.2.2
-    refine invC3_gen c0 s _ h3 (Grow.refl' rfl rfl) i (s.nodes i) (upd_self _ _).symm (fun p hp => hp)
+    refine invC3_gen0 s _ h3 hB.ee (Grow.refl' rfl rfl) i (s.nodes i) (upd_self _ _).symm (fun p hp => hp)
       (fun a ha => ha) (fun p hp => Or.inl hp) (h3.cm i) (h3.cmi i) (h3.cmd i) ?_
       (fun m hm => Or.inl hm) (fun m hm => Or.inl hm) (fun m hm => Or.inl hm)
     intro m' hm'
@@ -318,8 +391,8 @@ theorem invC3_sendApp (i : Nat) (m : App) (h : applyEvent s (.sendApp i m) = .ok
     · exact Or.inl e
   · cases h
 
-theorem invC3_recvApp (i : Nat) (m : App) (h : applyEvent s (.recvApp i m) = .ok s') (hC : InvC c0 s) :
-    InvC3 c0 s' := by
+theorem invC3_recvApp (i : Nat) (m : App) (h : applyEvent s (.recvApp i m) = .ok s') (hB : InvB s) (hC : InvC s) :
+    InvC3 s' := by
   have h3 := hC.c3
   simp only [applyEvent, ok] at h
   split at h
@@ -329,67 +402,70 @@ theorem invC3_recvApp (i : Nat) (m : App) (h : applyEvent s (.recvApp i m) = .ok
       · exact Or.inl h0
       · refine Or.inr ⟨p, hp, p1, p2, ?_⟩
         rw [mergeAt_take_commit _ _ _ _ hg.2.2.2.2.1 hg.2.2.2.2.2.2]; exact p3
-    exact invC3_node c0 s _ h3 i _ rfl rfl rfl rfl rfl rfl rfl rfl rfl hcm (h3.cmi i) (h3.cmd i)
+    exact invC3_node s _ h3 hB.ee i _ rfl rfl rfl rfl rfl rfl rfl rfl rfl hcm (h3.cmi i) (h3.cmd i)
   · cases h
 
-theorem invC3_ackCommitted (i : Nat) (h : applyEvent s (.ackCommitted i) = .ok s') (hC : InvC c0 s) :
-    InvC3 c0 s' := by
+theorem invC3_ackCommitted (i : Nat) (h : applyEvent s (.ackCommitted i) = .ok s') (hB : InvB s) (hC : InvC s) :
+    InvC3 s' := by
   simp only [applyEvent, ok] at h
   split at h
   · cases h
-    exact invC3_node c0 s _ hC.c3 i _ rfl rfl rfl rfl rfl rfl rfl rfl rfl
+    exact invC3_node s _ hC.c3 hB.ee i _ rfl rfl rfl rfl rfl rfl rfl rfl rfl
       (hC.c3.cm i) (hC.c3.cmi i) (hC.c3.cmd i)
   · cases h
 
-theorem invC3_ackSelf (i idx : Nat) (h : applyEvent s (.ackSelf i idx) = .ok s') (hC : InvC c0 s) :
-    InvC3 c0 s' := by
+theorem invC3_ackSelf (i idx : Nat) (h : applyEvent s (.ackSelf i idx) = .ok s') (hB : InvB s) (hC : InvC s) :
+    InvC3 s' := by
   simp only [applyEvent, ok] at h
   split at h
   · cases h
-    exact invC3_node c0 s _ hC.c3 i _ rfl rfl rfl rfl rfl rfl rfl rfl rfl
+    exact invC3_node s _ hC.c3 hB.ee i _ rfl rfl rfl rfl rfl rfl rfl rfl rfl
       (hC.c3.cm i) (hC.c3.cmi i) (hC.c3.cmd i)
   · cases h
 
-theorem invC3_commitLeader (i c : Nat) (cfg : Cfg) (q : List Nat) (hcfg : cfg = c0)
-    (h : applyEvent s (.commitLeader i c cfg q) = .ok s') (hV : InvV c0 (vsys s)) (hL : InvL s)
-    (hC : InvC c0 s) : InvC3 c0 s' := by
+theorem invC3_commitLeader (i c : Nat) (cfg : Cfg) (q : List Nat)
+    (h : applyEvent s (.commitLeader i c cfg q) = .ok s') (hV : InvV (vsys s)) (hL : InvL s)
+    (hB : InvB s) (hC : InvC s) : InvC3 s' := by
   have h3 := hC.c3
-  simp only [applyEvent, ok] at h
-  split at h
-  · rename_i hg; cases h
-    subst hcfg
-    have hll := hL.ll i hg.2.1
-    have hall := hg.2.2.2.2.2.2
-    simp only [List.all_eq_true, List.any_eq_true, decide_eq_true_eq] at hall
-    have hel : Elected s (s.nodes i).term := ⟨i, (hV.ld i hg.2.1).1⟩
-    have hcs : ∀ p ∈ s.cmts, p ∈ ((s.nodes i).term, c) :: s.cmts := fun p hp => List.mem_cons_of_mem _ hp
-    have g : Grow s { s with nodes := upd s.nodes i { s.nodes i with commit := c }, cmts := ((s.nodes i).term, c) :: s.cmts } :=
-      Grow.refl' rfl rfl
-    refine invC3_gen cfg s _ h3 g i _ rfl hcs (fun a ha => ha) ?_ ?_
-      (fun im him => (h3.cmi i im him).grow h3 g hcs) ((h3.cmd i).grow h3 g hcs)
-      (fun m hm => Or.inl hm) (fun m hm => Or.inl hm) (fun m hm => Or.inl hm) (fun m hm => Or.inl hm)
-    · intro p hp
-      rcases List.mem_cons.1 hp with e | e
-      · subst e
-        right
-        refine ⟨?_, ?_, ?_, hel, q, hg.2.2.2.2.2.1, ?_⟩
-        · show 0 < c
-          have := hg.2.2.1; omega
-        · show c ≤ (s.llog (s.nodes i).term).length
-          rw [← hll]; exact hg.2.2.2.1
-        · show termAt (s.llog (s.nodes i).term) c = (s.nodes i).term
-          rw [← hll]; exact hg.2.2.2.2.1
-        · intro v hv
-          obtain ⟨a, ha, h1⟩ := hall v hv
-          exact ⟨a, ha, h1⟩
-      · exact Or.inl e
-    · exact Or.inr ⟨((s.nodes i).term, c), List.mem_cons_self, Nat.le_refl _, Nat.le_refl _, by
-        show (s.nodes i).log.take c = (s.llog (s.nodes i).term).take c
-        rw [← hll]⟩
-  · cases h
+  obtain ⟨_, hrole, hlt, hlen, hta, hq, hall, _, hlater, hs'⟩ := commitLeader_guard h
+  subst hs'
+  have hll := hL.ll i hrole
+  have hel : Elected s (s.nodes i).term := ⟨i, (hV.ld i hrole).1⟩
+  have hcs : ∀ p ∈ s.cmts, p ∈ ((s.nodes i).term, c) :: s.cmts := fun p hp => List.mem_cons_of_mem _ hp
+  have g : Grow s { s with nodes := upd s.nodes i { s.nodes i with commit := c },
+                           cmts := ((s.nodes i).term, c) :: s.cmts,
+                           ccfgs := (((s.nodes i).term, c), cfg) :: s.ccfgs } :=
+    Grow.refl' rfl rfl
+  refine invC3_gen s _ h3 hB.ee g i _ rfl hcs (fun a ha => ha) (fun _ _ => rfl)
+    (fun x hx => List.mem_cons_of_mem _ hx) (congrArg (List.cons ((s.nodes i).term, c)) h3.cc) ?_ ?_ ?_
+    (fun im him => (h3.cmi i im him).grow h3 g hcs) ((h3.cmd i).grow h3 g hcs)
+    (fun m hm => Or.inl hm) (fun m hm => Or.inl hm) (fun m hm => Or.inl hm) (fun m hm => Or.inl hm)
+  · intro pc hpc ec hec hlt'
+    rcases List.mem_cons.1 hpc with e | e
+    · subst e
+      right
+      rcases hlater ec hec hlt' with a | a
+      · exact Or.inl a
+      · exact Or.inr (a.trans (congrArg (List.take c) hll))
+    · exact Or.inl ⟨e, hec⟩
+  · intro p hp
+    rcases List.mem_cons.1 hp with e | e
+    · subst e
+      right
+      refine ⟨?_, ?_, ?_, hel, cfg, q, List.mem_cons_self, hq, hall⟩
+      · show 0 < c
+        omega
+      · show c ≤ (s.llog (s.nodes i).term).length
+        rw [← hll]; exact hlen
+      · show termAt (s.llog (s.nodes i).term) c = (s.nodes i).term
+        rw [← hll]; exact hta
+    · exact Or.inl e
+  · exact Or.inr ⟨((s.nodes i).term, c), List.mem_cons_self, Nat.le_refl _, Nat.le_refl _, by
+      show (s.nodes i).log.take c = (s.llog (s.nodes i).term).take c
+      rw [← hll]⟩
 
 theorem invC3_commitApp (i c : Nat) (m : App) (h : applyEvent s (.commitApp i c m) = .ok s')
-    (hL : InvL s) (hB : InvB c0 s) (hC : InvC c0 s) : InvC3 c0 s' := by
+    (hL : InvL s) (hB : InvB s) (hC : InvC s) : InvC3 s' := by
   have h3 := hC.c3
   simp only [applyEvent, ok] at h
   split at h
@@ -415,11 +491,11 @@ theorem invC3_commitApp (i c : Nat) (m : App) (h : applyEvent s (.commitApp i c 
     have hcm : CmtPre s m.term c (s.nodes i).log :=
       CmtPre.of_cmtd hB hC ((h3.capp m hm).mono_idx hg.2.2.2.2.1) hok.hl htc
     rw [hg.2.2.1] at hcm
-    exact invC3_node c0 s _ h3 i _ rfl rfl rfl rfl rfl rfl rfl rfl rfl hcm (h3.cmi i) (h3.cmd i)
+    exact invC3_node s _ h3 hB.ee i _ rfl rfl rfl rfl rfl rfl rfl rfl rfl hcm (h3.cmi i) (h3.cmd i)
   · cases h
 
 theorem invC3_commitHB (i c : Nat) (m : HB) (h : applyEvent s (.commitHB i c m) = .ok s')
-    (hA : InvA s) (hB : InvB c0 s) (hC : InvC c0 s) : InvC3 c0 s' := by
+    (hA : InvA s) (hB : InvB s) (hC : InvC s) : InvC3 s' := by
   have h3 := hC.c3
   simp only [applyEvent, ok] at h
   split at h
@@ -437,11 +513,11 @@ theorem invC3_commitHB (i c : Nat) (m : HB) (h : applyEvent s (.commitHB i c m) 
       have hcm : CmtPre s m.term c (s.nodes i).log :=
         CmtPre.of_cmtd hB hC (hcd.mono_idx hle) hel (by rw [hret, a1])
       rw [hg.2.2.1] at hcm
-      exact invC3_node c0 s _ h3 i _ rfl rfl rfl rfl rfl rfl rfl rfl rfl hcm (h3.cmi i) (h3.cmd i)
+      exact invC3_node s _ h3 hB.ee i _ rfl rfl rfl rfl rfl rfl rfl rfl rfl hcm (h3.cmi i) (h3.cmd i)
   · cases h
 
 theorem invC3_commitClaim (i : Nat) (m : Claim) (h : applyEvent s (.commitClaim i m) = .ok s')
-    (hL : InvL s) (hC : InvC c0 s) : InvC3 c0 s' := by
+    (hL : InvL s) (hB : InvB s) (hC : InvC s) : InvC3 s' := by
   have h3 := hC.c3
   simp only [applyEvent, ok] at h
   split at h
@@ -458,11 +534,11 @@ theorem invC3_commitClaim (i : Nat) (m : Claim) (h : applyEvent s (.commitClaim 
       have htk := anchor_take (keep_log s hL i) (hL.pfl _ (listsOf_llog s p.1)) hg.2.2.2.1 (by omega) hta
       have hcm : CmtPre s (s.nodes i).term m.idx (s.nodes i).log :=
         Or.inr ⟨p, hp, by omega, by omega, htk⟩
-      exact invC3_node c0 s _ h3 i _ rfl rfl rfl rfl rfl rfl rfl rfl rfl hcm (h3.cmi i) (h3.cmd i)
+      exact invC3_node s _ h3 hB.ee i _ rfl rfl rfl rfl rfl rfl rfl rfl rfl hcm (h3.cmi i) (h3.cmd i)
   · cases h
 
 theorem invC3_sendHB (i to c : Nat) (h : applyEvent s (.sendHB i to c) = .ok s')
-    (hV : InvV c0 (vsys s)) (hC : InvC c0 s) : InvC3 c0 s' := by
+    (hV : InvV (vsys s)) (hB : InvB s) (hC : InvC s) : InvC3 s' := by
   have h3 := hC.c3
   simp only [applyEvent, ok] at h
   split at h
@@ -474,7 +550,7 @@ theorem invC3_sendHB (i to c : Nat) (h : applyEvent s (.sendHB i to c) = .ok s')
       · exact Or.inl h0
       · simp only [List.any_eq_true, decide_eq_true_eq] at h1
         exact Or.inr h1
-    refine invC3_gen c0 s _ h3 (Grow.refl' rfl rfl) i (s.nodes i) (upd_self _ _).symm (fun p hp => hp)
+    refine invC3_gen0 s _ h3 hB.ee (Grow.refl' rfl rfl) i (s.nodes i) (upd_self _ _).symm (fun p hp => hp)
       (fun a ha => ha) (fun p hp => Or.inl hp) (h3.cm i) (h3.cmi i) (h3.cmd i) (fun m hm => Or.inl hm)
       ?_ (fun m hm => Or.inl hm) (fun m hm => Or.inl hm)
     intro m' hm'
@@ -483,8 +559,8 @@ theorem invC3_sendHB (i to c : Nat) (h : applyEvent s (.sendHB i to c) = .ok s')
     · exact Or.inl e
   · cases h
 
-theorem invC3_claim (i idx : Nat) (h : applyEvent s (.claim i idx) = .ok s') (hC : InvC c0 s) :
-    InvC3 c0 s' := by
+theorem invC3_claim (i idx : Nat) (h : applyEvent s (.claim i idx) = .ok s') (hB : InvB s) (hC : InvC s) :
+    InvC3 s' := by
   have h3 := hC.c3
   simp only [applyEvent, ok] at h
   split at h
@@ -495,7 +571,7 @@ theorem invC3_claim (i idx : Nat) (h : applyEvent s (.claim i idx) = .ok s') (hC
       rcases h3.cm i with h0 | ⟨p, hp, p1, p2, p3⟩
       · exact Or.inl (by omega)
       · exact Or.inr ⟨p, hp, by omega, p2, termAt_of_take_eq p3 hle⟩
-    refine invC3_gen c0 s _ h3 (Grow.refl' rfl rfl) i (s.nodes i) (upd_self _ _).symm (fun p hp => hp)
+    refine invC3_gen0 s _ h3 hB.ee (Grow.refl' rfl rfl) i (s.nodes i) (upd_self _ _).symm (fun p hp => hp)
       (fun a ha => ha) (fun p hp => Or.inl hp) (h3.cm i) (h3.cmi i) (h3.cmd i) (fun m hm => Or.inl hm)
       (fun m hm => Or.inl hm) (fun m hm => Or.inl hm) ?_
     intro m' hm'
@@ -505,7 +581,7 @@ theorem invC3_claim (i idx : Nat) (h : applyEvent s (.claim i idx) = .ok s') (hC
   · cases h
 
 theorem invC3_sendSnap (i idx : Nat) (h : applyEvent s (.sendSnap i idx) = .ok s')
-    (hV : InvV c0 (vsys s)) (hL : InvL s) (hC : InvC c0 s) : InvC3 c0 s' := by
+    (hV : InvV (vsys s)) (hL : InvL s) (hB : InvB s) (hC : InvC s) : InvC3 s' := by
   have h3 := hC.c3
   simp only [applyEvent, ok] at h
   split at h
@@ -516,7 +592,7 @@ theorem invC3_sendSnap (i idx : Nat) (h : applyEvent s (.sendSnap i idx) = .ok s
     have hlen : idx ≤ (s.llog (s.nodes i).term).length := by rw [← hll]; exact hg.2.2.2
     have htk : (s.nodes i).log.take idx = (s.llog (s.nodes i).term).take idx := by rw [← hll]
     have hta : termAt (s.nodes i).log idx = termAt (s.llog (s.nodes i).term) idx := by rw [← hll]
-    refine invC3_gen c0 s _ h3 (Grow.refl' rfl rfl) i (s.nodes i) (upd_self _ _).symm (fun p hp => hp)
+    refine invC3_gen0 s _ h3 hB.ee (Grow.refl' rfl rfl) i (s.nodes i) (upd_self _ _).symm (fun p hp => hp)
       (fun a ha => ha) (fun p hp => Or.inl hp) (h3.cm i) (h3.cmi i) (h3.cmd i) (fun m hm => Or.inl hm)
       (fun m hm => Or.inl hm) ?_ (fun m hm => Or.inl hm)
     intro m' hm'
@@ -526,7 +602,7 @@ theorem invC3_sendSnap (i idx : Nat) (h : applyEvent s (.sendSnap i idx) = .ok s
   · cases h
 
 theorem invC3_installSnap (i t idx sterm : Nat) (h : applyEvent s (.installSnap i t idx sterm) = .ok s')
-    (hB : InvB c0 s) (hC : InvC c0 s) : InvC3 c0 s' := by
+    (hB : InvB s) (hC : InvC s) : InvC3 s' := by
   have h3 := hC.c3
   simp only [applyEvent, ok] at h
   split at h
@@ -538,12 +614,12 @@ theorem invC3_installSnap (i t idx sterm : Nat) (h : applyEvent s (.installSnap 
       have hcm : CmtPre s m.term m.idx m.pre :=
         CmtPre.of_cmtd hB hC e2 e1 (by rw [e4, List.take_take, Nat.min_self])
       rw [hg.2.1] at hcm
-      exact invC3_node c0 s _ h3 i _ rfl rfl rfl rfl rfl rfl rfl rfl rfl hcm (h3.cmi i) (h3.cmd i)
+      exact invC3_node s _ h3 hB.ee i _ rfl rfl rfl rfl rfl rfl rfl rfl rfl hcm (h3.cmi i) (h3.cmd i)
     · cases h
   · cases h
 
 theorem invC3_commitSnap (i t idx sterm : Nat) (h : applyEvent s (.commitSnap i t idx sterm) = .ok s')
-    (hL : InvL s) (hB : InvB c0 s) (hC : InvC c0 s) : InvC3 c0 s' := by
+    (hL : InvL s) (hB : InvB s) (hC : InvC s) : InvC3 s' := by
   have h3 := hC.c3
   simp only [applyEvent, ok] at h
   split at h
@@ -557,12 +633,12 @@ theorem invC3_commitSnap (i t idx sterm : Nat) (h : applyEvent s (.commitSnap i 
       have htk := anchor_take (keep_log s hL i) (hL.pfl _ (listsOf_llog s m.term)) hg.2.2.2.1 e3 hta
       have hcm : CmtPre s m.term m.idx (s.nodes i).log := CmtPre.of_cmtd hB hC e2 e1 htk
       rw [hg.2.1] at hcm
-      exact invC3_node c0 s _ h3 i _ rfl rfl rfl rfl rfl rfl rfl rfl rfl hcm (h3.cmi i) (h3.cmd i)
+      exact invC3_node s _ h3 hB.ee i _ rfl rfl rfl rfl rfl rfl rfl rfl rfl hcm (h3.cmi i) (h3.cmd i)
     · cases h
   · cases h
 
 theorem invC3_bootstrap (i donor idx : Nat) (h : applyEvent s (.bootstrap i donor idx) = .ok s')
-    (hC : InvC c0 s) : InvC3 c0 s' := by
+    (hB : InvB s) (hC : InvC s) : InvC3 s' := by
   have h3 := hC.c3
   simp only [applyEvent, ok] at h
   split at h
@@ -574,48 +650,49 @@ theorem invC3_bootstrap (i donor idx : Nat) (h : applyEvent s (.bootstrap i dono
       · refine Or.inr ⟨p, hp, by omega, p2, ?_⟩
         rw [List.take_take, Nat.min_self]
         exact take_of_take_eq p3 h14
-    exact invC3_node c0 s _ h3 i _ rfl rfl rfl rfl rfl rfl rfl rfl rfl hcm (h3.cmi i) hcm
+    exact invC3_node s _ h3 hB.ee i _ rfl rfl rfl rfl rfl rfl rfl rfl rfl hcm (h3.cmi i) hcm
   · cases h
 
 end events
 
 /-! ### the step theorem -/
 
-theorem invC3_step (c0 : Cfg) (hne : c0.incoming ≠ [] ∨ c0.outgoing ≠ []) (s s' : PSys) (e : Event)
-    (hc : e.cfgOk c0) (h : applyEvent s e = .ok s')
-    (hV : InvV c0 (vsys s)) (hV' : InvV c0 (vsys s')) (hR : InvR s) (hR' : InvR s')
+theorem invC3_step (c0 : Cfg) (s s' : PSys) (e : Event) (h : applyEvent s e = .ok s')
+    (hV : InvV (vsys s)) (hV' : InvV (vsys s')) (hR : InvR s) (hR' : InvR s')
     (hL : InvL s) (hL' : InvL s') (hA : InvA s) (hA' : InvA s')
-    (hB : InvB c0 s) (hB' : InvB c0 s') (hC : InvC c0 s) (g : Grow s s') : InvC3 c0 s' := by
+    (hB : InvB s) (hB' : InvB s') (hC : InvC s) (g : Grow s s') : InvC3 s' := by
   cases e with
   | read r =>
     simp only [applyEvent, ok] at h
     split at h
-    · cases h; exact ⟨hC.c3.cq, hC.c3.cm, hC.c3.cmi, hC.c3.cmd, hC.c3.capp, hC.c3.chb, hC.c3.csn, hC.c3.ccl⟩
     · cases h
-  | bump i t => exact invC3_bump c0 s s' i t h hC
-  | campaign i => exact invC3_campaign c0 s s' i h hC
-  | grant i c => exact invC3_grant c0 s s' i c h hC
-  | rdy i => exact invC3_rdy c0 s s' i h hC
-  | persist i k => exact invC3_persist c0 s s' i k h hC
-  | release i key => exact invC3_release c0 s s' i key h hC
-  | crash i => exact invC3_crash c0 s s' i h hC
-  | restart i => exact invC3_restart c0 s s' i h hC
-  | win i cfg q => exact invC3_win c0 s s' i cfg q h hC g
-  | stepDown i => exact invC3_stepDown c0 s s' i h hC
-  | leaderAppend i e => exact invC3_leaderAppend c0 s s' i e h hC g
-  | sendApp i m => exact invC3_sendApp c0 s s' i m h hC
-  | recvApp i m => exact invC3_recvApp c0 s s' i m h hC
-  | ackCommitted i => exact invC3_ackCommitted c0 s s' i h hC
-  | ackSelf i idx => exact invC3_ackSelf c0 s s' i idx h hC
-  | commitLeader i c cfg q => exact invC3_commitLeader c0 s s' i c cfg q hc h hV hL hC
-  | commitApp i c m => exact invC3_commitApp c0 s s' i c m h hL hB hC
-  | commitHB i c m => exact invC3_commitHB c0 s s' i c m h hA hB hC
-  | commitClaim i m => exact invC3_commitClaim c0 s s' i m h hL hC
-  | sendHB i to c => exact invC3_sendHB c0 s s' i to c h hV hC
-  | claim i idx => exact invC3_claim c0 s s' i idx h hC
-  | sendSnap i idx => exact invC3_sendSnap c0 s s' i idx h hV hL hC
-  | installSnap i t idx sterm => exact invC3_installSnap c0 s s' i t idx sterm h hB hC
-  | commitSnap i t idx sterm => exact invC3_commitSnap c0 s s' i t idx sterm h hL hB hC
-  | bootstrap i donor idx => exact invC3_bootstrap c0 s s' i donor idx h hC
+      exact ⟨hC.c3.cq, hC.c3.cc, hC.c3.gd, hC.c3.cm, hC.c3.cmi, hC.c3.cmd, hC.c3.capp, hC.c3.chb,
+        hC.c3.csn, hC.c3.ccl⟩
+    · cases h
+  | bump i t => exact invC3_bump s s' i t h hB hC
+  | campaign i => exact invC3_campaign s s' i h hB hC
+  | grant i c => exact invC3_grant s s' i c h hB hC
+  | rdy i => exact invC3_rdy s s' i h hB hC
+  | persist i k => exact invC3_persist s s' i k h hB hC
+  | release i key => exact invC3_release s s' i key h hB hC
+  | crash i => exact invC3_crash s s' i h hB hC
+  | restart i => exact invC3_restart s s' i h hB hC
+  | win i cfg q => exact invC3_win s s' i cfg q h hV hL hB hC g
+  | stepDown i => exact invC3_stepDown s s' i h hB hC
+  | leaderAppend i e => exact invC3_leaderAppend s s' i e h hB hC g
+  | sendApp i m => exact invC3_sendApp s s' i m h hB hC
+  | recvApp i m => exact invC3_recvApp s s' i m h hB hC
+  | ackCommitted i => exact invC3_ackCommitted s s' i h hB hC
+  | ackSelf i idx => exact invC3_ackSelf s s' i idx h hB hC
+  | commitLeader i c cfg q => exact invC3_commitLeader s s' i c cfg q h hV hL hB hC
+  | commitApp i c m => exact invC3_commitApp s s' i c m h hL hB hC
+  | commitHB i c m => exact invC3_commitHB s s' i c m h hA hB hC
+  | commitClaim i m => exact invC3_commitClaim s s' i m h hL hB hC
+  | sendHB i to c => exact invC3_sendHB s s' i to c h hV hB hC
+  | claim i idx => exact invC3_claim s s' i idx h hB hC
+  | sendSnap i idx => exact invC3_sendSnap s s' i idx h hV hL hB hC
+  | installSnap i t idx sterm => exact invC3_installSnap s s' i t idx sterm h hB hC
+  | commitSnap i t idx sterm => exact invC3_commitSnap s s' i t idx sterm h hL hB hC
+  | bootstrap i donor idx => exact invC3_bootstrap s s' i donor idx h hB hC
 
 end RaftModel.P
